@@ -328,6 +328,12 @@ func (w *WireNode) toNodes(wireNodes []*WireNode) (bool, error) {
 	for _, child := range w.Children {
 		childNode := wireNodes[child].Built
 		if _, ok := childNode.(*brigodier.RootCommandNode); !ok {
+			// Children are keyed by name, so a well-formed graph never lists two children with the
+			// same name under one node (nor the same child twice). AddChild would merge them, and
+			// that merge recurses without end on cyclic graphs (e.g. a node listing itself twice).
+			if _, dup := w.Built.Children()[childNode.Name()]; dup {
+				return false, fmt.Errorf("node %d has more than one child named %q", w.IDx, childNode.Name())
+			}
 			w.Built.AddChild(childNode)
 		}
 	}
